@@ -48,12 +48,11 @@ def _sub_logged(text, rx, repl, rule, log, masked=True):
     for mt in re.finditer(rx, m):
         out.append(text[last:mt.start()])
         if isinstance(repl, str):
-            # group references are filled from the ORIGINAL text (the mask blanks literals and comments inside a captured group)
-            def fill(g, mt=mt):
-                k = g.group(1)
-                i = int(k)
-                return text[mt.start(i):mt.end(i)] if mt.group(i) is not None else ""
-            r = re.sub(r"\\(\d)", fill, repl)
+            # group references are filled from the ORIGINAL text (the mask blanks literals and comments inside a captured group);
+            # everything else in the template (\\n and other escapes) is expanded as re.sub would
+            tmpl = re.sub(r"\\(\d)", lambda g: "\x00G" + g.group(1) + "\x00", repl)
+            r = mt.expand(tmpl)
+            r = re.sub("\x00G(\\d)\x00", lambda g, mt=mt: (text[mt.start(int(g.group(1))):mt.end(int(g.group(1)))] if mt.group(int(g.group(1))) is not None else ""), r)
         else:
             r = repl(mt)
         out.append(r)
